@@ -1,6 +1,63 @@
 """C05 - log blocks are created as configured and log data decodes to device values.
 
-WORK IN PROGRESS
+Style: histories of REAL calls on real `Log`, `LogConfig`, `LogVariable`, `LogTocElement`, `Toc`, `CRTPPacket`, `Caller`,
+`SyncLogger` (and `SyncCrazyflie`) objects built by their real constructors, against a device model written here.  Only the
+Crazyflie facade (`cf`: link, send_packet, platform, add_port_callback) is a recording stub.  A session is opened with the
+real `Log.refresh_toc` + the device's reset acknowledgement (the library then creates the empty `Toc`); the table content is
+entered with the real `Toc.add_element` from elements parsed by the real `LogTocElement` constructor (the download protocol
+itself is property C03).  Table indices are symbolic (0..65535, pairwise distinct), the protocol version is symbolic >= 4
+(current protocol), block ids / periods / timestamps / all encoded values are symbolic.
+
+The device side is stated independently of the library: the type table TYPES (id, wire format, size), the 26-byte payload
+limit, the V2 create/append message layout decoded as the firmware does ((len - 2) // 3 triples of type byte and 16-bit
+table index; a trailing incomplete entry is ignored by the firmware), the settings commands and status codes.
+
+Clauses of the design section -> contracts
+ 1 acceptance iff variables exist / period / payload, nothing sent, id, appended once .... add_config.* , logconfig.period.*
+   (the period is split in two composable steps: LogConfig.__init__ maps milliseconds to 10 ms units [logconfig.period.*];
+   add_config accepts iff 0 < units < 255 for ANY value of the `period` field [add_config.*: the field is set to a symbolic int])
+ 2 re-add after reconnect keeps the variable list (also after a rejected first add) ..... readd.*
+ 3 creation messages enumerate exactly the variables (0..26 variables, every split) ....... create.n0 .. create.n26, lifecycle, readd.*
+   device limits (16 blocks / 128 variables) refuse before any send ....................... create.limits.*
+   raw-memory variables ................................................................... create.memory-variable  (KNOWN FINDING, fails)
+ 4 data packets decode to timestamp and device values, callback once ..................... data.*
+ 5 flags / callbacks follow the acknowledgements, start sent exactly on create ack ....... ack.step, lifecycle, commands.no-link
+ 6 SyncLogger: one put per sample, yielded once in order, ends at disconnect ............. synclogger.*
+ LogVariable type ids / type byte for all type names ...................................... logvariable.types
+
+Bounds (also in each contract's `bounded=`): list LENGTHS are enumerated (0..26 for creation = everything add_config can accept;
+acceptance at payload 0, 1, 24..28 bytes and 26/27 one-byte, 13/14 two-byte, 6/7 four-byte variables, every type at the limit);
+the TYPE of each variable is concrete per path (every type, every pair of types for decoding; fixed patterns using all types
+for long lists) because the type selects the struct format; histories are the scripted ones.
+
+Assumptions (peer / environment):
+ * the device answers settings commands only with status 0 or one of ENOENT, ENOEXEC, ENOMEM, E2BIG, EEXIST (firmware log.c).
+   Any other status byte on a create/start error makes `_new_packet_cb` raise KeyError (`_err_codes[status]`) - outside this assumption.
+ * a log data packet of a block carries the full payload of that block (a shorter one raises struct.error in the dispatcher thread).
+ * queue.Queue is FIFO; int periods below 2**53 divide like the double of the same value (CPython true division is correctly rounded).
+ * `logconfig.period.real/int` use float mode R (mathematical reals); the IEEE-double statement is proved for the binades containing
+   both limits in the quick tier (`logconfig.period.double.near-limits`) and for every double in the thorough tier (`...double.all`).
+
+Not covered (stated, not claimed):
+ * thread interleavings: SyncLogger's queue is filled by the incoming-packet thread and drained by the application thread; the
+   contracts run arrivals and reads as sequential schedules.  connect()/disconnect() racing with packet dispatch is not modelled.
+ * the legacy (protocol version < 4) create/append layout - the property speaks of the current protocol.
+ * the TOC download and cache (C03, C11); Log.reset(); LogConfig objects mutated by the application after they were added.
+ * symbolic-LENGTH variable lists and symbolic type per variable for lists longer than two (see Bounds).
+
+Observations that are not obligations here (reported to the maintainer): on a start error the started callback receives the Log object
+instead of the block (`started_cb.call(self, False)`), on a create error the added callback receives only `False`.
+
+FINDINGS on the unchanged tree (contracts kept; `create.memory-variable` is the listed known finding and stays in the quick tier, the other
+two have the option thorough_only=True so that `./vcheck C05` stays green until the maintainer decides; they fail with a native replay
+under `./vcheck C05 thorough`):
+ * create.memory-variable/no-exception: LogConfig.add_memory(...) + add_config (accepted) + start() raises TypeError in
+   _setup_log_elements (`pk.data.append(struct.pack('<B', ...))`: bytearray.append(bytes)); nothing is sent.
+ * readd.block-created-in-new-session: a configuration that was added in an earlier session (added flag still True because the session
+   ended without a delete acknowledgement, e.g. link loss) and is added again after a reconnect is NOT created on the new device:
+   start() sends START_LOGGING for the new id instead of the creation messages (nothing ever resets `_added` at disconnect/reconnect).
+ * synclogger.reuse: SyncLogger never clears its queue (`self._queue.empty()` only tests): after disconnect + connect of the same
+   object, samples (and the end marker) left from the earlier session are yielded in the new session before / instead of new samples.
 """
 from pyvc.api import contract
 
@@ -273,6 +330,45 @@ for _label, _types in (('n0', []),
         _add_config(_label, _types, _B % (_n, _types, size_of(_types), _miss, _typ), _typ, _miss)
 
 
+FILLERS = {22: ['float'] * 5 + ['FP16'], 23: ['float'] * 5 + ['FP16', 'int8_t'], 24: ['uint32_t'] * 6, 25: ['int32_t'] * 6 + ['uint8_t']}
+
+
+@contract('C05', 'add_config.boundary.every-type', ADD_F,
+          clause='acceptance at the 26-byte payload limit for every type of the last variable: accepted iff filler + size of that type <= 26',
+          bounded='fillers of 22, 23, 24 and 25 bytes followed by one variable of each of the 8 types (32 lists), typed explicitly or by the table; period symbolic')
+def add_config_boundary(c):
+    filler = c.choice('filler', [22, 23, 24, 25])
+    last = c.choice('last', TYPE_NAMES)
+    typing = c.choice('typing', ['explicit', 'from-table'])
+    types = FILLERS[filler] + [last]
+    names = names_for(len(types))
+    table = list(zip(names, types))
+    cf, log = connected(c, table)
+    variables = table if typing == 'explicit' else [(nm, None) for nm in names]
+    conf = new_config(c, variables, period=c.int('period'))
+    do_add_config(c, log, conf)
+    check_add_config(c, log, conf, variables, table)
+
+
+@contract('C05', 'add_config.second-block', ADD_F,
+          clause='a further configuration gets the next id (ids wrap at 255) and is appended after the registered ones, which are not disturbed',
+          bounded='one registered block, second block of two variables; id counter symbolic')
+def add_config_second(c):
+    names = names_for(3)
+    table = list(zip(names, ['float', 'uint8_t', 'int16_t']))
+    cf, log = connected(c, table)
+    c.set(log, '_config_id_counter', c.int('next_id', 0, 254))
+    first = new_config(c, table[:1], name='first')
+    c.invoke((log, 'add_config'), first)
+    c.snapshot('first_state', '(first.id, first.valid, len(first.variables))')
+    variables = [(names[1], None), (names[2], 'int16_t')]
+    conf = new_config(c, variables, period=c.int('period'))
+    do_add_config(c, log, conf)
+    check_add_config(c, log, conf, variables, table)
+    c.ensure('first-block-undisturbed', '(first.id, first.valid, len(first.variables)) == first_state and first.id == next_id')
+    c.ensure('ids-distinct', 'implies(raised is None, conf.id != first.id and conf.id == (next_id + 1) % 255)')
+
+
 @contract('C05', 'add_config.not-connected', [LOG + ':Log.add_config'],
           clause='without a connection (no table to check against) nothing is registered and nothing is sent')
 def add_config_not_connected(c):
@@ -304,20 +400,21 @@ def added_config(c, variables, table, symbolic_id=True, period=None):
     return cf, log, conf
 
 
-def device_decode_creation(c, name='conf', first=0):
+def device_decode_creation(c, name='conf', tag=''):
     """The device model for block creation (firmware logCreateBlockV2 / logAppendBlockV2): every settings message is
     (command, block id) + (len - 2) // 3 triples (type byte, table index low, high); the first message must be a V2 create,
     all later ones V2 appends.  Checks the per-message rules and returns the number of decoded triples; the decoded triples
     are bound as dev_0, dev_1, ... = (type byte, table index)."""
     c.snapshot('msgs', "sent('cf.send_packet')")
-    c.ensure('nothing-but-transmissions', "len(trace) == len(msgs)")
+    c.ensure(tag + 'nothing-but-transmissions', "len(trace) == len(msgs)")
     n = 0
-    for k in range(first, len(c.get('msgs'))):
+    for k in range(len(c.get('msgs'))):
         c.snapshot('pk', 'msgs[%d][1][0]' % k)
-        c.let('cmd', CMD_CREATE_V2 if k == first else CMD_APPEND_V2)
-        c.ensure('message-within-30-bytes', 'len(pk.data) <= 30')
-        c.ensure('message-is-create-then-append-for-this-block', 'pk.port == 5 and pk.channel == 1 and len(pk.data) >= 2 and pk.data[0] == cmd and pk.data[1] == %s.id' % name)
-        c.ensure('retry-pattern-is-command-and-id', "msgs[%d][2]['expected_reply'] == (cmd, %s.id) and len(msgs[%d][1]) == 1" % (k, name, k))
+        c.let('cmd', CMD_CREATE_V2 if k == 0 else CMD_APPEND_V2)
+        c.ensure(tag + 'message-%d-within-30-bytes' % k, 'len(pk.data) <= 30')
+        c.ensure(tag + 'message-%d-is-%s-for-this-block' % (k, 'append' if k else 'create'),
+                 'pk.port == 5 and pk.channel == 1 and len(pk.data) >= 2 and pk.data[0] == cmd and pk.data[1] == %s.id' % name)
+        c.ensure(tag + 'message-%d-retry-pattern-is-command-and-id' % k, "msgs[%d][2]['expected_reply'] == (cmd, %s.id) and len(msgs[%d][1]) == 1" % (k, name, k))
         ln = c.concretize('len(pk.data)')
         for j in range((ln - 2) // 3):
             c.snapshot('dev_%d' % n, '(pk.data[%d], pk.data[%d] + 256 * pk.data[%d])' % (2 + 3 * j, 3 + 3 * j, 4 + 3 * j))
@@ -325,10 +422,10 @@ def device_decode_creation(c, name='conf', first=0):
     return n
 
 
-def creation_matches(c, n_decoded, expected_expr):
+def creation_matches(c, n_decoded, expected_expr, tag=''):
     c.snapshot('expected_entries', expected_expr)
     c.snapshot('device_entries', '(' + ''.join('dev_%d, ' % i for i in range(n_decoded)) + ')')
-    c.ensure('variables-enumerated-once-in-order-with-index-and-types', 'device_entries == expected_entries')
+    c.ensure(tag + 'variables-enumerated-once-in-order-with-index-and-types', 'device_entries == expected_entries')
 
 
 def type_pattern(n, budget=MAX_PAYLOAD):
@@ -452,6 +549,9 @@ def deliver_settings(c, log, cmd_expr, id_expr, status_expr):
 
 
 def settings_message_is(c, k, layout_expr, reply_expr):
+    """spec expression: the k-th transmitted packet is the given settings message with the given retry pattern"""
+    if len([e for e in c.get('trace') if e[0] == 'cf.send_packet']) <= k:
+        return 'False'
     c.snapshot('pk', "sent('cf.send_packet')[%d][1][0]" % k)
     return ("pk.port == 5 and pk.channel == 1 and bytes(pk.data) == %s and sent('cf.send_packet')[%d][2]['expected_reply'] == %s "
             "and len(sent('cf.send_packet')[%d][1]) == 1" % (layout_expr, k, reply_expr, k))
@@ -561,8 +661,15 @@ def deliver_data(c, log, id_expr, body_expr):
     c.call((log, '_new_packet_cb'), c.new(STK + ':CRTPPacket', 0x5E, c.get('logdata')))
 
 
-def sample_is(c, entry_expr, names, checks, tag, conf='conf', prefix=''):
+def n_sent(c, name):
+    return len([e for e in c.get('trace') if e[0] == name])
+
+
+def sample_is(c, entry_expr, names, checks, tag, conf='conf', prefix='', available=True):
     """entry_expr evaluates to the (timestamp, data, block) triple handed to the application"""
+    if not available:
+        c.ensure(prefix + 'sample-delivered', 'False')
+        return
     c.snapshot('entry', entry_expr)
     c.ensure(prefix + 'timestamp-and-block', 'len(entry) == 3 and entry[0] == ts%s and is_same(entry[2], %s)' % (tag, conf))
     c.ensure(prefix + 'exactly-the-configured-names', "typename(entry[1]) == 'dict' and len(entry[1]) == %d and all(n in entry[1] for n in %r)" % (len(names), tuple(names)))
@@ -591,7 +698,7 @@ def _data(label, types_or_n, bound):
         deliver_data(c, log, 'conf.id', body)
         c.ensure('no-exception', 'raised is None')
         c.ensure('one-data-callback-nothing-else', "len(sent('conf_data_received')) == 1 and len(trace) == 1")
-        sample_is(c, "sent('conf_data_received')[0][1]", names, checks, '')
+        sample_is(c, "sent('conf_data_received')[0][1]", names, checks, '', available=n_sent(c, 'conf_data_received') >= 1)
         c.ensure('flags-untouched', 'conf.added is True and conf.started is True')
     return k
 
@@ -629,7 +736,7 @@ def data_routing(c):
         c.ensure('dropped', 'len(trace) == 0')
     else:
         c.ensure('only-the-addressed-block-decodes', "len(sent('%s_data_received')) == 1 and len(trace) == 1" % which)
-        sample_is(c, "sent('%s_data_received')[0][1]" % which, names, checks, '', conf=which)
+        sample_is(c, "sent('%s_data_received')[0][1]" % which, names, checks, '', conf=which, available=n_sent(c, which + '_data_received') >= 1)
 
 
 @contract('C05', 'data.consecutive-packets', DATA_F,
@@ -649,7 +756,8 @@ def data_consecutive(c):
         samples.append(checks)
     c.ensure('one-callback-per-packet-in-order', "len(sent('conf_data_received')) == 3 and len(trace) == 3")
     for k, tag in enumerate('abc'):
-        sample_is(c, "sent('conf_data_received')[%d][1]" % k, names, samples[k], tag, prefix='sample-%s-' % tag)
+        sample_is(c, "sent('conf_data_received')[%d][1]" % k, names, samples[k], tag, prefix='sample-%s-' % tag,
+                  available=n_sent(c, 'conf_data_received') > k)
 
 
 # --------------------------------------------------------------------------------------- histories
@@ -688,7 +796,7 @@ def lifecycle(c):
     c.reset_trace()
     c.call((conf, 'start'))
     c.ensure('start-1-no-exception', 'raised is None')
-    creation_matches(c, device_decode_creation(c), expected)
+    creation_matches(c, device_decode_creation(c, tag='creation-1-'), expected, tag='creation-1-')
     expect_flags(c, 'requested', False, False, 0, 0)
     # the device acknowledges the creation -> the library starts the block
     c.reset_trace()
@@ -696,12 +804,12 @@ def lifecycle(c):
     c.ensure('create-ack-handled', "raised is None and len(sent('cf.send_packet')) == 1 and len(calls('cf.')) == 1")
     c.ensure('start-message-after-create-ack', settings_message_is(c, 0, "pack('<BBB', 3, conf.id, period)", '(3, conf.id)'))
     expect_flags(c, 'created', True, False, 1, 0)
-    c.ensure('added-callback-arguments', "is_same(sent('conf_added')[0][1][0], conf) and sent('conf_added')[0][1][1] is True")
+    c.ensure('added-callback-arguments', "len(sent('conf_added')) == 1 and is_same(sent('conf_added')[0][1][0], conf) and sent('conf_added')[0][1][1] is True")
     c.reset_trace()
     deliver_settings(c, log, '3', 'conf.id', '0')
     c.ensure('start-ack-handled', "raised is None and len(calls('cf.')) == 0")
     expect_flags(c, 'started', True, True, 0, 1)
-    c.ensure('started-callback-arguments', "is_same(sent('conf_started')[0][1][0], conf) and sent('conf_started')[0][1][1] is True")
+    c.ensure('started-callback-arguments', "len(sent('conf_started')) == 1 and is_same(sent('conf_started')[0][1][0], conf) and sent('conf_started')[0][1][1] is True")
     # a duplicated create acknowledgement (retry) changes nothing
     c.reset_trace()
     deliver_settings(c, log, '6', 'conf.id', '0')
@@ -716,7 +824,7 @@ def lifecycle(c):
     deliver_settings(c, log, '4', 'conf.id', '0')
     c.ensure('stop-ack-handled', "raised is None and len(calls('cf.')) == 0")
     expect_flags(c, 'stopped', True, False, 0, 1)
-    c.ensure('stopped-callback-arguments', "is_same(sent('conf_started')[0][1][0], conf) and sent('conf_started')[0][1][1] is False")
+    c.ensure('stopped-callback-arguments', "len(sent('conf_started')) == 1 and is_same(sent('conf_started')[0][1][0], conf) and sent('conf_started')[0][1][1] is False")
     # start of an existing block: only the start command
     c.reset_trace()
     c.call((conf, 'start'))
@@ -735,14 +843,14 @@ def lifecycle(c):
     deliver_settings(c, log, '2', 'conf.id', str(c.choice('delete_status', [0, ENOENT])))
     c.ensure('delete-ack-handled', "raised is None and len(calls('cf.')) == 0")
     expect_flags(c, 'deleted', False, False, 1, 1)
-    c.ensure('deleted-callback-arguments', "sent('conf_added')[0][1][1] is False and sent('conf_started')[0][1][1] is False")
+    c.ensure('deleted-callback-arguments', "len(sent('conf_added')) == 1 and len(sent('conf_started')) == 1 and sent('conf_added')[0][1][1] is False and sent('conf_started')[0][1][1] is False")
     variable_state(c, conf)
     c.ensure('variable-list-unchanged-by-the-history', 'vars_of_conf == expected')
     # started again after the deletion: created again, same variables
     c.reset_trace()
     c.call((conf, 'start'))
     c.ensure('start-2-no-exception', 'raised is None')
-    creation_matches(c, device_decode_creation(c), expected)
+    creation_matches(c, device_decode_creation(c, tag='creation-2-'), expected, tag='creation-2-')
 
 
 @contract('C05', 'commands.no-link', [LOG + ':LogConfig.start', LOG + ':LogConfig.stop', LOG + ':LogConfig.delete'],
@@ -805,7 +913,7 @@ for _t in READD_TYPINGS:
           clause='a configuration that was added (and started) in an earlier session and is added again after a reconnect is created on the new '
                  'device when started: the creation messages enumerate its variables',
           bounded='two variables; the first session ends by link loss (no delete acknowledged)',
-          thorough_only=True)          # FINDING on the unchanged tree (see module docstring): kept, excluded from the quick run
+          )          # FINDING on the unchanged tree (see module docstring): recorded in known_findings.json
 def readd_created_again(c):
     names = names_for(2)
     table = list(zip(names, ['float', 'uint8_t']))
@@ -837,8 +945,9 @@ SYNC_TYPES = ['float', 'uint16_t', 'int8_t']
 URI = 'radio://0/80/2M'
 
 
-def sync_setup(c, n_configs=1, as_list=False):
-    """connected log, `disconnected` a real Caller, configurations conf0.. (three variables each) and a real SyncLogger"""
+def sync_setup(c, n_configs=1, as_list=False, wrapped=False):
+    """connected log, `disconnected` a real Caller, configurations conf0.. (three variables each) and a real SyncLogger
+    (wrapped: constructed from a real SyncCrazyflie around the Crazyflie stub)"""
     names = names_for(3 * n_configs)
     table = list(zip(names, SYNC_TYPES * n_configs))
     cf, log = connected(c, table)
@@ -846,7 +955,8 @@ def sync_setup(c, n_configs=1, as_list=False):
     c.set(cf, 'disconnected', disc)
     c.let('disc', disc)
     confs = [new_config(c, table[3 * i:3 * i + 3], name='conf%d' % i) for i in range(n_configs)]
-    sl = c.new(SYN + ':SyncLogger', cf, confs if (as_list or n_configs > 1) else confs[0])
+    owner = c.new('cflib.crazyflie.syncCrazyflie:SyncCrazyflie', URI, cf) if wrapped else cf
+    sl = c.new(SYN + ':SyncLogger', owner, confs if (as_list or n_configs > 1) else confs[0])
     c.let('sl', sl)
     c.reset_trace()
     return cf, log, disc, confs, sl, names
@@ -888,7 +998,7 @@ def _sync_session(schedule, ending):
                 c.call((sl, '__next__'))
                 c.ensure('read-%d-returns' % step, 'raised is None')
                 tag, checks = arrived[read]
-                sample_is(c, 'result', names, checks, tag, conf='conf0', prefix='read-%d-' % step)
+                sample_is(c, 'result', names, checks, tag, conf='conf0', prefix='read-%d-' % step, available=c.get('raised') is None)
                 read += 1
             c.ensure('queue-length-%d' % step, 'sl._queue.qsize() == %d' % (len(arrived) - read))
         c.reset_trace()
@@ -947,7 +1057,7 @@ def sync_twice(c):
           clause='with several configurations every one is added and started, and the samples of all of them are yielded once each in arrival order',
           bounded='two configurations of three variables; arrivals conf1, conf0, conf1 then three reads')
 def sync_two(c):
-    cf, log, disc, confs, sl, names = sync_setup(c, 2)
+    cf, log, disc, confs, sl, names = sync_setup(c, 2, wrapped=True)
     sync_connect(c, log, sl, confs)
     c.ensure('both-registered', 'len(log.log_blocks) == 2 and conf0.id != conf1.id')
     order = [1, 0, 1]
@@ -960,7 +1070,8 @@ def sync_two(c):
     for k, which in enumerate(order):
         c.call((sl, '__next__'))
         c.ensure('read-%d-returns' % k, 'raised is None')
-        sample_is(c, 'result', names[3 * which:3 * which + 3], arrived[k], 's%d' % k, conf='conf%d' % which, prefix='read-%d-' % k)
+        sample_is(c, 'result', names[3 * which:3 * which + 3], arrived[k], 's%d' % k, conf='conf%d' % which, prefix='read-%d-' % k,
+                  available=c.get('raised') is None)
     c.reset_trace()
     c.call((sl, 'disconnect'))
     c.snapshot('cmds', "tuple((e[1][0].data[0], e[1][0].data[1]) for e in sent('cf.send_packet'))")
@@ -971,7 +1082,7 @@ def sync_two(c):
           clause='a SyncLogger connected again after a disconnect yields the samples of the new session, ending at the disconnect of that session '
                  '(no sample or end marker of the earlier session is delivered in the new one)',
           bounded='one sample in the first session left unread at link loss, one sample in the second session',
-          thorough_only=True)          # FINDING on the unchanged tree (see module docstring): kept, excluded from the quick run
+          )          # FINDING on the unchanged tree (see module docstring): recorded in known_findings.json
 def sync_reuse(c):
     cf, log, disc, confs, sl, names = sync_setup(c)
     sync_connect(c, log, sl, confs)
